@@ -17,6 +17,20 @@ type RefEnv struct {
 	Avail func(name string) *T
 }
 
+// Ref generates reference terms; sub-results are named in Defs.
+type Ref struct {
+	Env   *RefEnv
+	Defs  *Defs
+	memoU map[*Src][2]*T
+}
+
+func NewRef(env *RefEnv, defs *Defs) *Ref {
+	if env == nil {
+		env = DefaultRefEnv()
+	}
+	return &Ref{Env: env, Defs: defs}
+}
+
 func DefaultRefEnv() *RefEnv {
 	return &RefEnv{
 		Val:   func(n string) *T { return Sym("gv_"+n, SVal) },
@@ -60,7 +74,8 @@ func decides(op string, v *T) *T {
 }
 
 // LR: (value, error) of the documented left-to-right short-circuit evaluation.
-func LR(t *Src, env *RefEnv) (*T, *T) {
+func (rf *Ref) LR(t *Src) (*T, *T) {
+	env := rf.Env
 	if t.IsLeaf() {
 		l := DecodeLeaf(t.Leaf, Consts)
 		if l.Kind == LVar {
@@ -69,19 +84,19 @@ func LR(t *Src, env *RefEnv) (*T, *T) {
 		return leafTerm(l), ENil
 	}
 	if t.Op == "if" {
-		cv, ce := LR(t.Kids[0], env)
-		av, ae := LR(t.Kids[1], env)
-		bv, be := LR(t.Kids[2], env)
+		cv, ce := rf.LR(t.Kids[0])
+		av, ae := rf.LR(t.Kids[1])
+		bv, be := rf.LR(t.Kids[2])
 		cerr := IfCondErr(cv)
 		v := Ite(BVal(cv), av, bv)
 		e := Ite(IsENil(ce), Ite(IsENil(cerr), Ite(BVal(cv), ae, be), cerr), ce)
-		return v, e
+		return rf.Defs.Name("lrv", v), rf.Defs.Name("lre", e)
 	}
 	n := len(t.Kids)
 	vs := make([]*T, n)
 	es := make([]*T, n)
 	for i, k := range t.Kids {
-		vs[i], es[i] = LR(k, env)
+		vs[i], es[i] = rf.LR(k)
 	}
 	ov, oe := applyTerms(t.Op, vs)
 	if IsAndName(t.Op) || IsOrName(t.Op) {
@@ -93,17 +108,30 @@ func LR(t *Src, env *RefEnv) (*T, *T) {
 			v = Ite(dec, vs[i], v)
 			e = Ite(IsENil(es[i]), Ite(dec, ENil, e), es[i])
 		}
-		return v, e
+		return rf.Defs.Name("lrv", v), rf.Defs.Name("lre", e)
 	}
 	e := oe
 	for i := n - 1; i >= 0; i-- {
 		e = Ite(IsENil(es[i]), e, es[i])
 	}
-	return ov, e
+	return rf.Defs.Name("lrv", ov), rf.Defs.Name("lre", e)
 }
 
 // U: order-independent value and its definedness.
-func U(t *Src, env *RefEnv) (v, def *T) {
+func (rf *Ref) U(t *Src) (v, def *T) {
+	if r, ok := rf.memoU[t]; ok {
+		return r[0], r[1]
+	}
+	if rf.memoU == nil {
+		rf.memoU = map[*Src][2]*T{}
+	}
+	v, def = rf.u(t)
+	rf.memoU[t] = [2]*T{v, def}
+	return v, def
+}
+
+func (rf *Ref) u(t *Src) (v, def *T) {
+	env := rf.Env
 	if t.IsLeaf() {
 		l := DecodeLeaf(t.Leaf, Consts)
 		if l.Kind == LVar {
@@ -112,16 +140,16 @@ func U(t *Src, env *RefEnv) (v, def *T) {
 		return leafTerm(l), True
 	}
 	if t.Op == "if" {
-		cv, cd := U(t.Kids[0], env)
-		av, ad := U(t.Kids[1], env)
-		bv, bd := U(t.Kids[2], env)
-		return Ite(BVal(cv), av, bv), And(cd, Is("VBool", cv), Ite(BVal(cv), ad, bd))
+		cv, cd := rf.U(t.Kids[0])
+		av, ad := rf.U(t.Kids[1])
+		bv, bd := rf.U(t.Kids[2])
+		return rf.Defs.Name("uv", Ite(BVal(cv), av, bv)), rf.Defs.Name("ud", And(cd, Is("VBool", cv), Ite(BVal(cv), ad, bd)))
 	}
 	n := len(t.Kids)
 	vs := make([]*T, n)
 	ds := make([]*T, n)
 	for i, k := range t.Kids {
-		vs[i], ds[i] = U(k, env)
+		vs[i], ds[i] = rf.U(k)
 	}
 	if IsAndName(t.Op) || IsOrName(t.Op) {
 		var some, all []*T
@@ -131,14 +159,15 @@ func U(t *Src, env *RefEnv) (v, def *T) {
 		}
 		someDec := Or(some...)
 		dec := BoolT(IsOrName(t.Op))
-		return VBool(Ite(someDec, dec, Not(dec))), Or(someDec, And(all...))
+		return rf.Defs.Name("uv", VBool(Ite(someDec, dec, Not(dec)))), rf.Defs.Name("ud", Or(someDec, And(all...)))
 	}
 	ov, oe := applyTerms(t.Op, vs)
-	return ov, And(And(ds...), IsENil(oe))
+	return rf.Defs.Name("uv", ov), rf.Defs.Name("ud", And(And(ds...), IsENil(oe)))
 }
 
 // AllOK: every operand that any evaluation order can reach succeeds.
-func AllOK(t *Src, env *RefEnv) *T {
+func (rf *Ref) AllOK(t *Src) *T {
+	env := rf.Env
 	if t.IsLeaf() {
 		l := DecodeLeaf(t.Leaf, Consts)
 		if l.Kind == LVar {
@@ -147,19 +176,20 @@ func AllOK(t *Src, env *RefEnv) *T {
 		return True
 	}
 	if t.Op == "if" {
-		cv, cd := U(t.Kids[0], env)
-		return And(AllOK(t.Kids[0], env), cd, Is("VBool", cv), Ite(BVal(cv), AllOK(t.Kids[1], env), AllOK(t.Kids[2], env)))
+		cv, cd := rf.U(t.Kids[0])
+		return rf.Defs.Name("ok", And(rf.AllOK(t.Kids[0]), cd, Is("VBool", cv), Ite(BVal(cv), rf.AllOK(t.Kids[1]), rf.AllOK(t.Kids[2]))))
 	}
 	var cs []*T
 	for _, k := range t.Kids {
-		cs = append(cs, AllOK(k, env))
+		cs = append(cs, rf.AllOK(k))
 	}
-	_, d := U(t, env)
-	return And(And(cs...), d)
+	_, d := rf.U(t)
+	return rf.Defs.Name("ok", And(And(cs...), d))
 }
 
 // K: Kleene value over {value, DNE}; meaningful under NoFail.
-func K(t *Src, env *RefEnv) *T {
+func (rf *Ref) K(t *Src) *T {
+	env := rf.Env
 	if t.IsLeaf() {
 		l := DecodeLeaf(t.Leaf, Consts)
 		if l.Kind == LVar {
@@ -168,12 +198,12 @@ func K(t *Src, env *RefEnv) *T {
 		return leafTerm(l)
 	}
 	if t.Op == "if" {
-		c := K(t.Kids[0], env)
-		return Ite(Is("VDNE", c), VDNE, Ite(Eq(c, VBool(True)), K(t.Kids[1], env), K(t.Kids[2], env)))
+		c := rf.K(t.Kids[0])
+		return rf.Defs.Name("k", Ite(Is("VDNE", c), VDNE, Ite(Eq(c, VBool(True)), rf.K(t.Kids[1]), rf.K(t.Kids[2]))))
 	}
 	var args, dne, dec []*T
 	for _, k := range t.Kids {
-		a := K(k, env)
+		a := rf.K(k)
 		args = append(args, a)
 		dne = append(dne, Is("VDNE", a))
 		if IsAndName(t.Op) {
@@ -187,12 +217,13 @@ func K(t *Src, env *RefEnv) *T {
 	if len(dec) > 0 {
 		r = Ite(Or(dec...), VBool(BoolT(IsOrName(t.Op))), r)
 	}
-	return r
+	return rf.Defs.Name("k", r)
 }
 
 // Eager: value of t when everything is evaluated (no short circuit), and the
 // condition that every variable is bound and every application succeeds.
-func Eager(t *Src, env *RefEnv) (v, nofail *T) {
+func (rf *Ref) Eager(t *Src) (v, nofail *T) {
+	env := rf.Env
 	if t.IsLeaf() {
 		l := DecodeLeaf(t.Leaf, Consts)
 		if l.Kind == LVar {
@@ -202,20 +233,20 @@ func Eager(t *Src, env *RefEnv) (v, nofail *T) {
 	}
 	var vs, nf []*T
 	for _, k := range t.Kids {
-		v, n := Eager(k, env)
+		v, n := rf.Eager(k)
 		vs = append(vs, v)
 		nf = append(nf, n)
 	}
 	if t.Op == "if" {
-		return Ite(BVal(vs[0]), vs[1], vs[2]), And(And(nf...), Is("VBool", vs[0]))
+		return rf.Defs.Name("ev", Ite(BVal(vs[0]), vs[1], vs[2])), rf.Defs.Name("nf", And(And(nf...), Is("VBool", vs[0])))
 	}
 	ov, oe := applyTerms(t.Op, vs)
-	return ov, And(And(nf...), IsENil(oe))
+	return rf.Defs.Name("ev", ov), rf.Defs.Name("nf", And(And(nf...), IsENil(oe)))
 }
 
 // NoFail(src, v): every operator application in the tree succeeds on v.
-func NoFail(t *Src, env *RefEnv) *T {
-	_, n := Eager(t, env)
+func (rf *Ref) NoFail(t *Src) *T {
+	_, n := rf.Eager(t)
 	return n
 }
 
